@@ -18,6 +18,8 @@ ops (all numbers decimal, names/paths hex-encoded ASCII):
   comm <pid> <tid> <exec 0|1> <t> <namehex>
   mmap2 <pid> <tid> <addr> <len> <pgoff> <exec 0|1> <t> <pathhex>
   switchin <pid> <tid> <t>                 PERF_RECORD_SWITCH / SWITCH_CPU_WIDE, switch-in
+  layout <i,j,…;k,…;…>                     file layout (rounds of record indices) for the perf.data writer; ignored here:
+                                           the record lines are in *delivery* order, which need not be time order
   switchout <pid> <tid> <t> [preempt]      … with PERF_RECORD_MISC_SWITCH_OUT [| SWITCH_OUT_PREEMPT]
   sched <pid> <tid> <t> <k|u> <ip> <chain> SAMPLE of the second event `sched:sched_switch`
   cfg word `cs:<letters|->:<n>`: c = attr.context_switch on the main event, s = a second event named
@@ -64,6 +66,10 @@ def isPmOp (l : String) : Bool :=
   match words l with
   | "perfmap" :: _ => true
   | "perfmapraw" :: _ => true
+  -- `layout <rounds>`: how the harness lays the records out in the perf.data file (rounds of record indices).
+  -- The op lines list the records in the order the reader's round sorter delivers them, which is all the
+  -- converter sees; the line is for the perf.data writer only.
+  | "layout" :: _ => true
   | _ => false
 
 /-- group the lines by pid, keeping the order of the lines and of the first mention of each pid -/
